@@ -25,7 +25,7 @@ def by_slot(layout):
     return {k: json.dumps(v, sort_keys=True) for k, v in out.items()}
 
 
-def stable_layout(d, code, seeds):
+def stable_layout(d, code, seeds, cfg=None):
     """Analyses under several hash seeds; returns (per-slot entries for slots stable across seeds, unstable slots) or
     None if any run failed."""
     runs = []
@@ -34,8 +34,8 @@ def stable_layout(d, code, seeds):
     variants = [(s, None) for s in seeds] + [(seeds[0], {"mode": m, "seed": k}) for m, k in
                                              (("sorted", 0), ("reversed", 0), ("shuffle", 1), ("shuffle", 2))]
     for s, fold in variants:
-        req = {"op": "analyze", "code": code.hex(), "stage": "analyze", "cfg": {"permissive": True}, "wd": BUDGET,
-               "rand_seed": s}
+        req = {"op": "analyze", "code": code.hex(), "stage": "analyze", "cfg": dict(cfg or {}, permissive=True),
+               "wd": BUDGET, "rand_seed": s}
         if fold:
             req["fold"] = fold
         r = d.call(req, timeout=300)
@@ -81,15 +81,36 @@ def judge_union(res, case, la, lb, ld, slots_a, slots_b):
             return
 
 
+def judge_renumber(res, case, lp, lq, sigma, how):
+    res.judged += 1
+    (sp, up), (sq, uq) = lp, lq
+    for s, t in sigma.items():
+        if s in up or t in uq:
+            res.count("slots_unstable_across_hash_seeds (C02)")
+            continue
+        res.count("slots_compared")
+        if sp.get(s) != sq.get(t):
+            res.violation("c11:renumbering-changes-type:%s" % how, "slot %s -> %s: %s vs %s" % (hex(s), hex(t), sp.get(s), sq.get(t)),
+                          dict(case, slot=hex(s)))
+            return
+    extra_q = [t for t in sq if t not in sigma.values() and t not in uq]
+    extra_p = [s for s in sp if s not in sigma and s not in up]
+    if sorted(extra_q) != sorted(extra_p):
+        res.violation("c11:renumbering-changes-slot-set", "slots outside the renumbering: %s vs %s" % (extra_p[:4], extra_q[:4]), case)
+
+
 def shard(shard_no, nshards, seed, tier, extra):
     res = common.Result()
     rng = common.rng_for(seed, "c11", shard_no)
-    n = 36 if tier == "quick" else 3000
+    n = 60 if tier == "quick" else 3000
     d = common.Driver("rel", shim=True)
     table = keccak.slot_hash_table()
     for i in range(n):
         seeds = [rng.getrandbits(40) for _ in range(NSEEDS)]
         mode = rng.choice(["union", "union", "renumber"])
+        # a small value-size limit makes the VM replace over-large values by opaque ones all over the place; the
+        # same configuration is used for every program of a case
+        cfg = {"vsize": rng.choice([3, 3, 6, 12, 30])} if rng.random() < 0.4 else {}
         pool = rng.sample(range(0, 60), 12)
         if mode == "union":
             slots_a, slots_b = pool[:rng.randint(1, 4)], pool[6:6 + rng.randint(1, 4)]
@@ -126,15 +147,17 @@ def shard(shard_no, nshards, seed, tier, extra):
             code_d = progs.dispatcher([mixed[j] for j in order], shape, salt=3)
             res.evaluations += 1
             case = {"mode": "union", "kind": kind, "shape": shape, "code_a": code_a.hex(), "code_b": code_b.hex(), "code_d": code_d.hex(),
-                    "slots_a": slots_a, "slots_b": slots_b, "seeds": seeds}
-            la, ea = stable_layout(d, code_a, seeds)
-            lb, eb = stable_layout(d, code_b, seeds)
-            ld, ed = stable_layout(d, code_d, seeds)
+                    "slots_a": slots_a, "slots_b": slots_b, "seeds": seeds, "cfg": cfg}
+            la, ea = stable_layout(d, code_a, seeds, cfg)
+            lb, eb = stable_layout(d, code_b, seeds, cfg)
+            ld, ed = stable_layout(d, code_d, seeds, cfg)
             if la is None or lb is None or ld is None:
                 bad = ea or eb or ed
                 res.inconc("analysis:%s" % (bad.get("class") if bad.get("class") != "err" else ",".join(sorted({e["kind"] for e in bad.get("errors", [])}))))
                 continue
             res.count("mode:union:%s:%s" % (kind, shape))
+            if cfg:
+                res.count("cases_with_small_value_size_limit")
             res.nontriv(common.sha([case["code_a"], case["code_b"], shape]))
             judge_union(res, case, la, lb, ld, set(slots_a), set(slots_b))
             if i < 2:
@@ -159,30 +182,16 @@ def shard(shard_no, nshards, seed, tier, extra):
             code_q = layoutgen.build(gt2, random.Random(s_build), modes)
             res.evaluations += 1
             case = {"mode": "renumber", "how": how, "code_p": code_p.hex(), "code_q": code_q.hex(),
-                    "sigma": {hex(k): hex(v) for k, v in sigma.items()}, "seeds": seeds}
-            lp, ep = stable_layout(d, code_p, seeds)
-            lq, eq = stable_layout(d, code_q, seeds)
+                    "sigma": {hex(k): hex(v) for k, v in sigma.items()}, "seeds": seeds, "cfg": cfg}
+            lp, ep = stable_layout(d, code_p, seeds, cfg)
+            lq, eq = stable_layout(d, code_q, seeds, cfg)
             if lp is None or lq is None:
                 bad = ep or eq
                 res.inconc("analysis:%s" % bad.get("class"))
                 continue
-            res.judged += 1
             res.count("mode:renumber:%s" % how)
             res.nontriv(common.sha([case["code_p"], case["sigma"]]))
-            (sp, up), (sq, uq) = lp, lq
-            for s, t in sigma.items():
-                if s in up or t in uq:
-                    res.count("slots_unstable_across_hash_seeds (C02)")
-                    continue
-                res.count("slots_compared")
-                if sp.get(s) != sq.get(t):
-                    res.violation("c11:renumbering-changes-type:%s" % how, "slot %s -> %s: %s vs %s" % (hex(s), hex(t), sp.get(s), sq.get(t)),
-                                  dict(case, slot=hex(s)))
-                    break
-            extra_q = [t for t in sq if t not in sigma.values() and t not in uq]
-            extra_p = [s for s in sp if s not in sigma and s not in up]
-            if sorted(extra_q) != sorted(extra_p) and not res.violations:
-                res.violation("c11:renumbering-changes-slot-set", "slots outside the renumbering: %s vs %s" % (extra_p[:4], extra_q[:4]), case)
+            judge_renumber(res, case, lp, lq, sigma, how)
     d.stop()
     return res.to_dict()
 
@@ -196,17 +205,31 @@ def run(tier, seed, t0):
         "analysed alone and together behind a dispatcher (compare chain / binary split / fall-through default, branches "
         "interleaved in random order); programs and their images under injective slot renumberings (small to small, "
         "small to 2^16..2^64, small to > 2^130: PUSH widths and all offsets change). Each program under 3 hash seeds "
-        "plus 4 forced unification fold orders; slots unstable across those runs are excluded (C02). distinct = distinct program pair / (program, renumbering)",
+        "plus 4 forced unification fold orders; a third of the cases under a value-size limit of 3..30 (opaque "
+        "replacement values everywhere); slots unstable across those runs are excluded (C02). distinct = distinct program pair / (program, renumbering)",
         t0, ["cases in which any run hits the visit or fork limit, or fails, are discarded (counted as inconclusive)",
              "layout comparison ignores conflict explanations"], min_judged=50)
 
 
 def replay(path):
     case = json.load(open(path))["case"]
+    res = common.Result()
     d = common.Driver("rel", shim=True)
+    cfg = case.get("cfg") or {}
+    st = {}
     for k in ("code_a", "code_b", "code_d", "code_p", "code_q"):
         if k in case:
-            st, err = stable_layout(d, bytes.fromhex(case[k]), case["seeds"])
-            print(k, st)
+            st[k], err = stable_layout(d, bytes.fromhex(case[k]), case["seeds"], cfg)
+            print(k, st[k] if st[k] is not None else err)
     d.stop()
-    return 1
+    if any(v is None for v in st.values()):
+        print("inconclusive: an analysis failed")
+        return 0
+    if case["mode"] == "union":
+        judge_union(res, case, st["code_a"], st["code_b"], st["code_d"], set(case["slots_a"]), set(case["slots_b"]))
+    else:
+        sigma = {int(k, 16): int(v, 16) for k, v in case["sigma"].items()}
+        judge_renumber(res, case, st["code_p"], st["code_q"], sigma, case.get("how"))
+    for v in res.violations:
+        print("VIOLATION-REPLAY", v["signature"], v["what"])
+    return 1 if res.violations else 0
